@@ -838,6 +838,11 @@ private:
   static constexpr std::uint32_t kMaxLogRecordLength =
       1 + 4 + MAX_KEY_LENGTH + 8 + 4 + MAX_VALUE_LENGTH + 4;
 
+  // Smallest snapshot entry of any accepted version: keyLen(4) + one key byte +
+  // valLen(4) (version 1 has no expiry field). load() uses it to bound the entry
+  // count by what the file can hold.
+  static constexpr std::uint32_t kMinSnapshotEntryBytes = 4 + 1 + 4;
+
   static std::chrono::system_clock::time_point kNoExpiry()
   {
     return std::chrono::system_clock::time_point::max();
@@ -1210,6 +1215,13 @@ private:
     {
       const auto now = std::chrono::system_clock::now();
 
+      // The snapshot stores its entry count in 32 bits: refuse to write a
+      // snapshot whose count could wrap (the log stays authoritative).
+      if (_kv.size() > std::numeric_limits<uint32_t>::max())
+      {
+        throw KVStoreException("Too many entries for the snapshot format");
+      }
+
       // Stable survivor set computed under the held _mutex (M-3): a concurrent
       // eviction cannot mutate _kv/_expiry between compute and write.
       std::vector<std::string> survivors;
@@ -1390,9 +1402,20 @@ private:
         throw KVStoreException("Failed to read entry count from snapshot");
       }
 
-      if (count > 10000000) // Sanity check
+      // Sanity check: every entry occupies at least kMinSnapshotEntryBytes
+      // (key length, one key byte, value length), so the rest of the file bounds
+      // the count. (A fixed ceiling here made a store with more keys than the
+      // ceiling unopenable after its first successful compaction.)
       {
-        throw KVStoreException("Unreasonable entry count in snapshot: " + std::to_string(count));
+        const std::streamoff here = static_cast<std::streamoff>(snapshot.tellg());
+        snapshot.seekg(0, std::ios::end);
+        const std::streamoff fileEnd = static_cast<std::streamoff>(snapshot.tellg());
+        snapshot.seekg(here, std::ios::beg);
+        if (here < 0 || fileEnd < here ||
+            count > static_cast<std::uint64_t>(fileEnd - here) / kMinSnapshotEntryBytes)
+        {
+          throw KVStoreException("Unreasonable entry count in snapshot: " + std::to_string(count));
+        }
       }
 
       for (uint32_t i = 0; i < count; ++i)
